@@ -249,7 +249,7 @@ UnitTfs == Mk("BeckeRTransform", Cart2(RminSeq, RSeq), "unit")
         \o Mk("LinearFiniteRTransform", Cart2(RminSeq, RmaxSeq), "unit")
         \o Mk("MultiExpRTransform", Cart2(RminSeq, RSeq), "unit")
         \o Mk("KnowlesRTransform", Cart3(RminSeq, RSeq, KSeq), "unit")
-        \o Mk("HandyRTransform", Cart3(RminSeq, RSeq, KSeq), "unit")
+        \o Mk("HandyRTransform", Cart3(RminSeq, RSeq, << <<1, 1>>, <<2, 1>> >>), "unit")   \* m = 3: see c15.py
         \o Mk("HandyModRTransform", Cart3(RminSeq, << <<10, 1>>, <<20, 1>> >>, KSeq), "unit")
 HalfDirect == Mk("IdentityRTransform", << <<>> >>, "half")
         \o Mk("LinearInfiniteRTransform", Cart3(RminSeq, RmaxSeq, BSeq), "half")
